@@ -131,6 +131,13 @@ Section DhFacts.
     rewrite ED in EO. now inversion EO.
   Qed.
 
+End DhFacts.
+
+Section DhFacts2.
+  Variable modexp : N -> N -> N -> N.
+  Variable prf : bytes -> bytes -> bytes.
+  Variable hbytes : nat.
+
   (* degenerate or out-of-range public values are rejected instead of producing a key *)
   Theorem dh_reject p plen own other ss vs :
     4 <= p -> (other = 0 \/ other = 1 \/ other = p - 1 \/ other = p \/ other = p + 1) ->
@@ -159,7 +166,7 @@ Section DhFacts.
       by (rewrite N.div_mul by lia; lia).
     rewrite firstn_length, skipn_length. lia.
   Qed.
-End DhFacts.
+End DhFacts2.
 
 (* ---- ECDH parameter codec: encode then decode is the identity on well-sized parameters ---- *)
 Lemma take16_be a r : N.of_nat (length a) < 65536 -> take16 (be 2 (N.of_nat (length a)) ++ a ++ r) = Ok (a, r).
